@@ -410,3 +410,108 @@ def check_utf16bytes(allfacts):
         else:
             r.fail("scm::MatchByteSet::matches non-byte branch", "AsciiBracket matching no longer has a branch for non-byte inputs", allfacts["utf16"].loc(fn[0]))
     return r
+
+
+# ---- CHARSETPAD -----------------------------------------------------------------------------
+
+def check_charsetpad(facts):
+    r = RuleResult("CHARSETPAD", "Insn::CharSet holds a fixed array that both executors compare slot by slot: the array the emitter builds "
+                                 "must be padded with a member of the set (a repeat of an element read from the CharSet node), never with a "
+                                 "constant, which would add a spurious member")
+    fn = "emit::Emitter::emit_node"
+    if not facts.has_body(fn):
+        r.error("anchor %s not found" % fn)
+        return r
+    b = facts.body(fn)
+    n = 0
+    for bi, i, s in b.iter_stmts():
+        if s["k"] == "assign" and s["rv"]["k"] == "repeat" and re.match(r"\[u32; \d+\]", s["pl"].get("ty", "") or b.local_ty(s["pl"]["l"])):
+            n += 1
+            op = s["rv"]["op"]
+            ok = False
+            if op["k"] in ("copy", "move"):
+                l = op["pl"]["l"]
+                for _ in range(6):
+                    d = b.single_def(l)
+                    if not d:
+                        break
+                    if d[2] == "assign" and d[3]["rv"]["k"] == "use" and d[3]["rv"]["op"]["k"] in ("copy", "move"):
+                        pl = d[3]["rv"]["op"]["pl"]
+                        if any(isinstance(p, dict) and ("idx" in p or "cidx" in p) for p in pl["p"]):
+                            rt, pr = b.root_of(pl["l"])
+                            if any(isinstance(p, dict) and p.get("as") == "CharSet" for p in pr + pl["p"]):
+                                ok = True
+                            break
+                        l = pl["l"]
+                    elif d[2] == "call" and (d[3].get("callee") or "").endswith(("Index::index", "::get_unchecked")):
+                        a0 = d[3]["args"][0]
+                        rt, pr = b.root_of(a0["pl"]["l"]) if a0["k"] in ("copy", "move") else (None, [])
+                        ok = any(isinstance(p, dict) and p.get("as") == "CharSet" for p in pr)
+                        # deref of the returned reference
+                        break
+                    elif d[2] == "assign" and d[3]["rv"]["k"] == "use":
+                        break
+                    else:
+                        break
+            key = "%s CharSet padding" % fn
+            if ok:
+                r.ok(key, "padded with an element of the set")
+            else:
+                r.fail(key, "the Insn::CharSet array is padded with %s instead of a member of the set: sets with fewer members than slots "
+                            "also match that value" % (("the constant %s" % op.get("int")) if op["k"] == "const" else "an unrelated value"),
+                       facts.loc(fn, s["line"]))
+    r.floor("charset_arrays", n, 1)
+    return r
+
+
+# ---- CROSSMEMB ------------------------------------------------------------------------------
+
+def check_crossmemb(facts):
+    r = RuleResult("CROSSMEMB", "in ClassSet::intersect_operand / subtract_operand the single-character strings of one operand are compared "
+                                "with the code points of the *other* operand: inside every loop over X.alternatives the receiver of "
+                                "CodePointSet::contains is rooted at an operand different from X (testing X against itself makes `&&` / `--` "
+                                "ignore the other side)")
+    from .lbseq import natural_loops
+    n = 0
+    for fn in ("parse::ClassSet::intersect_operand", "parse::ClassSet::subtract_operand"):
+        if not facts.has_body(fn):
+            r.error("anchor %s not found" % fn)
+            continue
+        b = facts.body(fn)
+        loops = natural_loops(b)
+
+        def operand_root(op):
+            if op.get("k") not in ("copy", "move"):
+                return None
+            rt, pr = b.root_of(op["pl"]["l"])
+            return b.local_name(rt) or rt
+        for header, nodes in sorted(loops.items()):
+            # the loop's iterator
+            it_root = None
+            for x in nodes:
+                t = b.blocks[x]["t"]
+                if t["k"] == "call" and (t.get("callee") or "").endswith("Iterator::next") and t["args"]:
+                    itl = b.root_of(t["args"][0]["pl"]["l"])[0]
+                    for d in b.defs().get(itl, []):
+                        src = d[3]
+                        if d[2] == "assign" and src["rv"]["k"] == "use" and src["rv"]["op"]["k"] in ("copy", "move"):
+                            dd = b.single_def(src["rv"]["op"]["pl"]["l"])
+                            src = dd[3] if dd and dd[2] == "call" else None
+                            d = dd
+                        if d and d[2] == "call" and (d[3].get("callee") or "").endswith(("into_iter", "::iter")) and d[3]["args"]:
+                            it_root = operand_root(d[3]["args"][0])
+            if it_root is None:
+                continue
+            for x in sorted(nodes):
+                t = b.blocks[x]["t"]
+                if t["k"] == "call" and (t.get("callee") or "").endswith("CodePointSet::contains"):
+                    n += 1
+                    recv = operand_root(t["args"][0])
+                    key = "%s loop over %s.alternatives tests %s" % (fn, it_root, recv)
+                    if recv is not None and recv != it_root:
+                        r.ok(key)
+                    else:
+                        r.fail(key, "a string taken from `%s` is tested against the code points of `%s` itself (line %s): the result of the "
+                                    "class-set operation ignores the other operand" % (it_root, recv, t.get("line")), facts.loc(fn, t.get("line")))
+    r.floor("membership_tests", n, 6)
+    return r
